@@ -133,6 +133,11 @@ type Request struct {
 	// OwnObjects (with Concurrent): every one of those requests goes through a Traceroute object of its own, made
 	// by the plain constructor at the moment of the request (an application that builds one per request)
 	OwnObjects bool `json:"own_objects,omitempty"`
+	// WriteFailsAfter (HTTP): the response writer accepts this many bytes and then fails (-1: fails at once)
+	WriteFailsAfter int `json:"write_fails_after,omitempty"`
+	// Hosts: names the scripted forward resolver knows (name -> addresses, IPv4 and IPv6 mixed, in table order); a
+	// target that is one of these names is resolved through it, any other name does not exist
+	Hosts map[string][]string `json:"hosts,omitempty"`
 	DNS             map[string]DNSScript      `json:"dns,omitempty"`
 	DNSDefault      DNSScript                 `json:"dns_default"`
 	CancelAtUs      int64                     `json:"cancel_at_us,omitempty"`
@@ -149,6 +154,7 @@ type Request struct {
 type ReqOutcome struct {
 	Res                 *result.Results
 	AllRes              []*result.Results // with Concurrent: the result of every request
+	Attempted           []byte            // with WriteFailsAfter: everything the handler tried to write
 	Err                 error
 	Panic               string
 	Deadlock            string
@@ -210,6 +216,18 @@ func RunRequest(t *testing.T, rq *Request) *ReqOutcome {
 	world.Flood = rq.Flood
 	out.World = world
 	p := rq.P
+	if rq.Hosts != nil {
+		// target names are resolved by a scripted forward resolver (and by nobody else)
+		stub, err := newDNSStub(rq.Hosts)
+		if err != nil {
+			out.Panic = "harness-infra: dns stub: " + err.Error()
+			return out
+		}
+		defer stub.close()
+		oldRes := net.DefaultResolver
+		net.DefaultResolver = stub.resolver()
+		defer func() { net.DefaultResolver = oldRes }()
+	}
 	if rq.SackSrv {
 		addr, err := netip.ParseAddr(p.Hostname)
 		if err != nil {
@@ -325,7 +343,14 @@ func RunRequest(t *testing.T, rq *Request) *ReqOutcome {
 					}
 					req := httptest.NewRequest(http.MethodGet, "/traceroute?"+q, nil).WithContext(ctx)
 					rr := httptest.NewRecorder()
-					srv.TracerouteHandler(rr, req)
+					var hw http.ResponseWriter = rr
+					if rq.WriteFailsAfter != 0 {
+						// the client goes away while the answer is being written: writes succeed up to that many bytes
+						fw := &failingWriter{ResponseWriter: rr, limit: max(rq.WriteFailsAfter, 0)}
+						hw = fw
+						defer func() { out.Attempted = fw.seen }()
+					}
+					srv.TracerouteHandler(hw, req)
 					out.HTTPStatus = rr.Code
 					out.Body = rr.Body.Bytes()
 					if rr.Code != http.StatusOK {
@@ -465,4 +490,27 @@ func (o *ReqOutcome) Result() (*result.Results, error) {
 		return &res, nil
 	}
 	return nil, errors.New("no result")
+}
+
+// failingWriter is a ResponseWriter whose peer disappears after limit bytes.
+type failingWriter struct {
+	http.ResponseWriter
+	limit, n int
+	seen     []byte
+}
+
+func (f *failingWriter) Write(p []byte) (int, error) {
+	f.seen = append(f.seen, p...)
+	room := f.limit - f.n
+	if room >= len(p) {
+		f.n += len(p)
+		return f.ResponseWriter.Write(p)
+	}
+	if room > 0 {
+		f.ResponseWriter.Write(p[:room])
+		f.n += room
+	} else {
+		room = 0
+	}
+	return room, errors.New("write: broken pipe")
 }
